@@ -45,9 +45,7 @@ def wf_problems(obj):
             for v in getattr(obj, nm):
                 if not isinstance(v, (int, np.integer)) or isinstance(v, bool) or v <= 0:
                     probs.append("%s holds a non positive-integer %r" % (nm, v))
-        dts = {c.dtype for c in obj.cores}
-        if len(dts) != 1:
-            probs.append("mixed core dtypes %s" % dts)
+        # (mixed core dtypes are not a well-formedness matter of C05: set_core accepts any core the user supplies)
     except Exception as e:  # noqa
         probs.append("metadata access failed: %s: %s" % (type(e).__name__, e))
     return probs
